@@ -136,7 +136,7 @@ func runCLI(bin, dir string, inv cliInv) cliRun {
 	cmd := exec.Command(bin, inv.argv()...)
 	cmd.Dir = dir
 	cmd.Env = append(os.Environ(), "NO_COLOR=1")
-	if inv.File == "stdin" || inv.File == "dash" {
+	if inv.File == "stdin" || inv.File == "dash" || inv.File == "devstdin" {
 		cmd.Stdin = strings.NewReader(doc)
 	}
 	// (file "null": Stdin stays nil, the child reads /dev/null - a character device that is not a terminal)
@@ -420,6 +420,11 @@ func checkCLIState(r *evid.Run, bin string, pool *wproto.Pool, s *cliState) {
 		r.Count("distinct_nontrivial", 1)
 		checkWatch(r, bin, pool, s.Hist[len(s.Hist)-1], dir)
 		return
+	}
+	for _, inv := range s.Hist {
+		if inv.Target == "reg/sub" {
+			os.WriteFile(filepath.Join(dir, "reg"), nil, 0o644) // a regular file: the target lies below it
+		}
 	}
 	var run cliRun
 	var before []string
